@@ -202,18 +202,26 @@ def run_pair(c, d, idx):
     from chameleon import PageTemplate, PageTemplateFile
     kw = {k: talgen.pyval(v, c['objs']) for k, v in c['vars']}
 
+    # the `encoding` option is about what render() returns (and about byte values that are inserted): it says nothing about how a
+    # template given as bytes is read
+    enc = [None, None, None, 'windows-1251', 'latin-1', 'utf-8'][idx % 6]
+    opt = {'encoding': enc} if enc else {}
+
     def go(f):
         try:
             t = f()
-            return {'out': t(**kw), 'content_type': t.content_type, 'content_encoding': t.content_encoding}
+            out = t(**kw)
+            if isinstance(out, bytes):
+                out = out.decode(enc)
+            return {'out': out, 'content_type': t.content_type, 'content_encoding': t.content_encoding}
         except Exception as e:
             return {'exc': type(e).__name__, 'msg': str(e).split('\n')[0][:120]}
-    rs = go(lambda: PageTemplate(c['doc']))
-    rb = go(lambda: PageTemplate(c['data']))
+    rs = go(lambda: PageTemplate(c['doc'], **opt))
+    rb = go(lambda: PageTemplate(c['data'], **opt))
     path = os.path.join(d, 't%d.pt' % idx)
     with open(path, 'wb') as f:
         f.write(c['data'])
-    rf = go(lambda: PageTemplateFile(path))
+    rf = go(lambda: PageTemplateFile(path, **opt))
     os.unlink(path)
     return rs, rb, rf
 
